@@ -8,6 +8,8 @@ From Coq Require Import List Bool Arith Strings.Byte.
 From YV Require Import YLex.Keywords YLex.Model YLex.Spec YLex.Proofs YLex.Total.
 From YV Require Import Load.Model.
 From YV Require Load.Proofs.
+From YV Require Import Load.FindUp.
+From YV Require Load.FindUpProofs.
 Import ListNotations.
 
 (** For EVERY byte string the lexer ends with the complete token stream or with a lexer error: it
@@ -78,3 +80,47 @@ Example C14_import_loop_old_refuted :
   /\ imp_model Load.Proofs.misnamed_graph = IDone [1].
 Proof. exact Load.Proofs.imp_old_refuted. Qed.
 Print Assumptions C14_import_loop_old_refuted.
+
+(** Relative schema paths (meta/find.go Find, the branch for a leading ../ step; model Load/FindUp.v):
+    for EVERY path and EVERY node depth the walk up never calls Parent() on a nil Meta - a path that
+    climbs further than the module is an unresolvable path, not a crash. *)
+Theorem C14_find_up_total : forall anc path, find_up (Some anc) path <> FPanic.
+Proof. exact Load.FindUpProofs.find_up_total. Qed.
+Print Assumptions C14_find_up_total.
+
+(** ... and it arrives where it should: n leading ../ steps from a node with a ancestors end at the
+    ancestor n levels up when n <= a (n = a: the module) and with nil otherwise *)
+Theorem C14_find_up_spec : forall n a rest, no_up rest = true ->
+  find_up (Some a) (ups n ++ rest) = if n <=? a then FAt (a - n) rest else FNil.
+Proof. exact Load.FindUpProofs.find_up_spec. Qed.
+Print Assumptions C14_find_up_spec.
+
+Theorem C14_find_up_below : forall a path b rest, find_up (Some a) path = FAt b rest -> b <= a.
+Proof. exact Load.FindUpProofs.find_up_below. Qed.
+Print Assumptions C14_find_up_below.
+
+(** non-vacuity; and a walk that tests for the missing parent once instead of at every step is
+    refuted (three steps from a top-level leaf) *)
+Example C14_find_up_unchecked_refuted :
+  climb_unchecked (Some 1) (ups 3 ++ [x61]) = FPanic /\ find_up (Some 1) (ups 3 ++ [x61]) = FNil
+  /\ find_up (Some 1) (ups 1 ++ [x61]) = FAt 0 [x61].
+Proof. exact Load.FindUpProofs.climb_unchecked_refuted. Qed.
+Print Assumptions C14_find_up_unchecked_refuted.
+
+(** A second default statement on a leaf, typedef or choice (meta/builder.go Builder.Default as
+    repaired) is an error WHATEVER the first argument was - in particular the empty string - and
+    never reaches the panic of addDefault. *)
+Theorem C14_second_default_is_error : forall first second, builder_default (Some first) second = BErr.
+Proof. exact Load.FindUpProofs.builder_default_second_is_error. Qed.
+Print Assumptions C14_second_default_is_error.
+
+Theorem C14_builder_default_total : forall cur v, builder_default cur v <> BPanic.
+Proof. exact Load.FindUpProofs.builder_default_total. Qed.
+Print Assumptions C14_builder_default_total.
+
+(** a guard that reads the public getter (Default() is "" both for no default and for the empty
+    default) is refuted: default ""; default "b"; reaches the panic *)
+Example C14_default_guard_by_getter_refuted :
+  builder_default_by_getter (Some []) [x62] = BPanic /\ builder_default (Some []) [x62] = BErr.
+Proof. exact Load.FindUpProofs.builder_default_by_getter_refuted. Qed.
+Print Assumptions C14_default_guard_by_getter_refuted.
